@@ -17,6 +17,8 @@ REVFIX = {"revfix-1": ["C05"], "revfix-2": ["C03", "C02"], "revfix-3": ["C13"], 
 
 def main():
     args = [a for a in sys.argv[1:] if not a.startswith("--")]
+    if "--json" in sys.argv:
+        args = [a for a in args if a != sys.argv[sys.argv.index("--json") + 1]]
     jobs = 4
     if "--jobs" in sys.argv:
         jobs = int(sys.argv[sys.argv.index("--jobs") + 1])
@@ -37,6 +39,7 @@ def main():
     if only:
         props = only.split(",")
     bad = 0
+    matrix = {}
 
     def run(w):
         return w, mutant_test.run(w[0], props, quiet=True)
@@ -50,6 +53,7 @@ def main():
                 continue
             caught = [p for p, (rc, _, _) in out.items() if rc == 1]
             errs = [p for p, (rc, _, _) in out.items() if rc not in (0, 1)]
+            matrix[name] = {"kind": kind, "expected": expect[:1], "caught": caught}
             if kind == "benign":
                 ok = not caught and not errs
                 print(f"{'ok    ' if ok else 'ALARM '} {name}: {caught or 'silent'}" + (f" errors {errs}" if errs else ""), flush=True)
@@ -64,6 +68,9 @@ def main():
                 ok = not missing and not errs
                 print(f"{'ok    ' if ok else 'MISSED'} {name}: expected {want[:1]} caught {caught}" + (f" errors {errs}" if errs else ""), flush=True)
             bad += 0 if ok else 1
+    if "--json" in sys.argv:
+        with open(sys.argv[sys.argv.index("--json") + 1], "w") as fh:
+            json.dump(matrix, fh, indent=1, sort_keys=True)
     print(f"regression: {len(work)} patches, {bad} problems")
     return 1 if bad else 0
 
